@@ -20,6 +20,7 @@ import (
 	"time"
 
 	"github.com/snapcore/snapd/dirs"
+	"github.com/snapcore/snapd/osutil"
 	"github.com/snapcore/snapd/snap"
 	eng "github.com/snapcore/snapd/verifengine"
 )
@@ -28,17 +29,59 @@ type verifC27Case struct {
 	Key         string   `json:"instance_key"`
 	DesktopBase string   `json:"desktop_file_base"`
 	Lines       []string `json:"lines"`
+	// Via: "" = sanitizeDesktopFile called directly with the installed name <prefix>_<base>;
+	// "derive" = a file meta/gui/<base> created under a temporary mount dir and read by deriveDesktopFilesContent.
+	Via string `json:"via,omitempty"`
 }
 
 func (c verifC27Case) key() string {
+	if c.Via != "" {
+		return fmt.Sprintf("via=%s:key=%q:file=%q:lines=%q", c.Via, c.Key, c.DesktopBase, c.Lines)
+	}
 	return fmt.Sprintf("key=%q:file=%q:lines=%q", c.Key, c.DesktopBase, c.Lines)
 }
 
+// The base name of the desktop file shipped in meta/gui is chosen by the snap and is copied into the
+// installed file's name, and from there into every Exec line. It is a dimension of its own.
+type verifC27Name struct{ Tag, Base string }
+
+var verifC27Names = []verifC27Name{
+	{"plain", "app.desktop"},
+	{"plain-2", "other-1.desktop"},
+	{"blank", "a sh -c id .desktop"},
+	{"tab", "a\tsh.desktop"},
+	{"newline", "a\nExec=sh -c id .desktop"},
+	{"double-quote", "a\"b.desktop"},
+	{"single-quote", "a'b.desktop"},
+	{"backslash", "a\\ssh\\s-c\\sid\\s.desktop"}, // \s is the string-type escape for a blank
+	{"percent", "a%fb%.desktop"},
+	{"equals", "a=b.desktop"},
+	{"dollar-backtick", "a$(id)`id`.desktop"},
+	{"semicolon", "a;id;.desktop"},
+	{"hash", "a#b.desktop"},
+	{"snap-variable", "a${SNAP}b.desktop"}, // the sanitizer expands ${SNAP} in whole lines
+	{"non-ascii", "a\u00f1\u65e5\u672c-\u00df.desktop"},
+	{"mixed", "a \"b\\c$d`e%f;g#h'i\tj.desktop"},
+}
+
+func verifC27NameTag(base string) string {
+	for _, n := range verifC27Names {
+		if n.Base == base {
+			return n.Tag
+		}
+	}
+	return "other"
+}
+
+const verifC27NameClassPrefix = "exec:desktop-file-name-not-quoted:"
+
 var verifC27AppNames = []string{"app", "ap", "foo", "app-2"}
 
-func verifC27Snap(key string) *snap.Info {
+func verifC27Snap(key string) *snap.Info { return verifC27SnapRev(key, 12) }
+
+func verifC27SnapRev(key string, rev int) *snap.Info {
 	info := &snap.Info{SuggestedName: "foo", InstanceKey: key}
-	info.Revision = snap.R(12)
+	info.Revision = snap.R(rev)
 	info.Apps = map[string]*snap.AppInfo{}
 	for _, n := range verifC27AppNames {
 		info.Apps[n] = &snap.AppInfo{Snap: info, Name: n, Command: "bin/" + n}
@@ -231,18 +274,296 @@ func verifC27Argv(v string) (argv []string, ok bool) {
 	return argv, true
 }
 
+// ---- reference reader of the Exec key (Desktop Entry Specification, "Value types" and "The Exec key") ----
+//
+// 1. Exec is of type string: the escape sequences \s \n \t \r \\ stand for blank, newline, tab, CR and
+//    backslash; this pass runs BEFORE the quoting rules.
+// 2. The command line is split into arguments at blanks (the reader also splits at tab and newline, as
+//    GLib does). An argument may be quoted in whole with double quotes; inside, \" \` \$ \\ stand for
+//    the second character. An argument that contains a reserved character (blank tab newline " ' \ > < ~
+//    | & ; $ * ? # ( ) `) must be quoted.
+// 3. After the quoting is undone: %% is a literal percent sign, %f %F %u %U %i %c %k (and the
+//    deprecated %d %D %n %N %v %m) are field codes; field codes inside a quoted argument are undefined.
+//
+// Where the specification leaves the result undefined the reader goes on (a reserved character is kept
+// as it is) and records a flaw on the argument; the oracle accepts no flaw in the arguments the
+// sanitizer generates itself (env, the assignment, the wrapper) and ignores flaws in the arguments the
+// snap supplied (the statement allows arbitrary arguments).
+
+const verifC27Reserved = " \t\n\"'\\><~|&;$*?#()`"
+
+type verifC27Word struct {
+	Text     string   // what the program receives: quoting undone, %% -> %, field codes taken out
+	Quoted   bool     // quoted in whole
+	RawStart int      // extent of the argument in the raw value
+	RawEnd   int      //
+	Flaws    []string // departures from the specification
+	Codes    []string // field codes found in it
+}
+
+type verifC27ExecLine struct {
+	Words []verifC27Word
+	Fatal string // the value cannot be split at all (unterminated quote in the last word)
+}
+
+type verifC27Ch struct {
+	c      byte
+	rawEnd int // offset in the raw value just behind the bytes that stand for c
+}
+
+func verifC27StringPass(v string) []verifC27Ch {
+	res := make([]verifC27Ch, 0, len(v))
+	for i := 0; i < len(v); i++ {
+		if v[i] == '\\' && i+1 < len(v) {
+			m := byte(0)
+			switch v[i+1] {
+			case 's':
+				m = ' '
+			case 'n':
+				m = '\n'
+			case 't':
+				m = '\t'
+			case 'r':
+				m = '\r'
+			case '\\':
+				m = '\\'
+			}
+			if m != 0 {
+				res = append(res, verifC27Ch{m, i + 2})
+				i++
+				continue
+			}
+			// undefined escape sequence: both characters are kept (GLib does the same)
+		}
+		res = append(res, verifC27Ch{v[i], i + 1})
+	}
+	return res
+}
+
+func verifC27Unescaped(v string) string {
+	cs := verifC27StringPass(v)
+	b := make([]byte, len(cs))
+	for i, c := range cs {
+		b[i] = c.c
+	}
+	return string(b)
+}
+
+func verifC27ParseExec(v string) verifC27ExecLine {
+	s := verifC27StringPass(v)
+	sep := func(c byte) bool { return c == ' ' || c == '\t' || c == '\n' }
+	rawStart := func(i int) int {
+		if i == 0 {
+			return 0
+		}
+		return s[i-1].rawEnd
+	}
+	var res verifC27ExecLine
+	i := 0
+	for {
+		for i < len(s) && sep(s[i].c) {
+			i++
+		}
+		if i >= len(s) {
+			return res
+		}
+		w := verifC27Word{RawStart: rawStart(i)}
+		flaw := func(f string) {
+			for _, x := range w.Flaws {
+				if x == f {
+					return
+				}
+			}
+			w.Flaws = append(w.Flaws, f)
+		}
+		var text []byte
+		var quoted []bool
+		first := true
+		for i < len(s) && !sep(s[i].c) {
+			c := s[i].c
+			if c == '"' {
+				if first {
+					w.Quoted = true
+				} else {
+					w.Quoted = false
+					flaw("a double quote inside an argument (arguments may only be quoted in whole)")
+				}
+				first = false
+				i++
+				closed := false
+				for i < len(s) {
+					c = s[i].c
+					if c == '\\' {
+						if i+1 < len(s) && strings.IndexByte("\"`$\\", s[i+1].c) >= 0 {
+							text, quoted = append(text, s[i+1].c), append(quoted, true)
+							i += 2
+							continue
+						}
+						flaw("a backslash in a quoted argument that does not escape one of \" ` $ \\")
+					} else if c == '"' {
+						closed = true
+						i++
+						break
+					} else if c == '`' || c == '$' {
+						flaw(fmt.Sprintf("an unescaped %q in a quoted argument", string(c)))
+					}
+					text, quoted = append(text, c), append(quoted, true)
+					i++
+				}
+				if !closed {
+					flaw("unterminated double quote")
+					w.Text, w.RawEnd = string(text), len(v)
+					res.Words = append(res.Words, w)
+					res.Fatal = "unterminated double quote"
+					return res
+				}
+				if i < len(s) && !sep(s[i].c) {
+					w.Quoted = false
+					flaw("characters follow the closing quote (arguments may only be quoted in whole)")
+				}
+				continue
+			}
+			first = false
+			if strings.IndexByte(verifC27Reserved, c) >= 0 {
+				flaw(fmt.Sprintf("the reserved character %q outside quotes", string(c)))
+			}
+			text, quoted = append(text, c), append(quoted, false)
+			i++
+		}
+		w.RawEnd = rawStart(i)
+		// field codes, after the quoting has been undone
+		var out []byte
+		for j := 0; j < len(text); j++ {
+			if text[j] != '%' {
+				out = append(out, text[j])
+				continue
+			}
+			if j+1 < len(text) && text[j+1] == '%' {
+				out = append(out, '%')
+				j++
+				continue
+			}
+			if j+1 < len(text) && strings.IndexByte("fFuUickdDnNvm", text[j+1]) >= 0 {
+				w.Codes = append(w.Codes, string(text[j:j+2]))
+				if quoted[j] {
+					flaw("a field code inside a quoted argument")
+				}
+				j++
+				continue
+			}
+			flaw("a percent sign that is neither %% nor a field code")
+			out = append(out, '%')
+		}
+		w.Text = string(out)
+		res.Words = append(res.Words, w)
+	}
+}
+
+func verifC27Texts(ws []verifC27Word) []string {
+	res := make([]string, len(ws))
+	for i, w := range ws {
+		res[i] = w.Text
+	}
+	return res
+}
+
+// verifC27PlainArg: the argument can stand in an Exec value as it is.
+func verifC27PlainArg(a string) bool {
+	for i := 0; i < len(a); i++ {
+		if a[i] < 0x20 || a[i] == 0x7f || a[i] == '%' || strings.IndexByte(verifC27Reserved, a[i]) >= 0 {
+			return false
+		}
+	}
+	return true
+}
+
+func verifC27IsAssignment(w verifC27Word) bool {
+	return strings.IndexByte(w.Text, '=') > 0 && w.Text[0] != '-'
+}
+
+// judgeExec reads an Exec value of the output with the reference reader: env, then exactly one
+// assignment BAMF_DESKTOP_FILE_HINT=<installed file>, then the program, which must be the wrapper of
+// one of the snap's own apps; none of these generated arguments may have a flaw or a field code.
+func (e *verifC27Env) judgeExec(v string) (problems []string, facts []string) {
+	p := verifC27ParseExec(v)
+	bad := func(format string, a ...interface{}) { problems = append(problems, fmt.Sprintf(format, a...)) }
+	argv := verifC27Texts(p.Words)
+	if len(p.Words) == 0 {
+		bad("Exec value %q names no program", v)
+		return
+	}
+	generated := func(w verifC27Word, what string) {
+		if len(w.Flaws) > 0 {
+			bad("Exec value %q: the generated argument %s (%q) does not follow the Exec syntax: %s", v, what, v[w.RawStart:w.RawEnd], strings.Join(w.Flaws, "; "))
+		}
+		if len(w.Codes) > 0 {
+			bad("Exec value %q: the generated argument %s (%q) contains the field codes %q, which the launcher replaces", v, what, v[w.RawStart:w.RawEnd], w.Codes)
+		}
+	}
+	incomplete := func(i int) bool { return p.Fatal != "" && i == len(p.Words)-1 }
+	if w := p.Words[0]; w.Text != "env" || v[w.RawStart:w.RawEnd] != "env" || incomplete(0) {
+		bad("Exec value %q does not start with the word env (argv %q)", v, argv)
+		return
+	}
+	i := 1
+	var assigns []string
+	for i < len(p.Words) && !incomplete(i) && verifC27IsAssignment(p.Words[i]) {
+		generated(p.Words[i], "environment assignment")
+		assigns = append(assigns, p.Words[i].Text)
+		i++
+	}
+	hint := "BAMF_DESKTOP_FILE_HINT=" + e.desktopFile
+	if len(assigns) != 1 || assigns[0] != hint {
+		bad("Exec value %q: the environment assignments are %q, not exactly %q", v, assigns, hint)
+	}
+	if i >= len(p.Words) {
+		bad("Exec value %q names no program for env to start (argv %q)", v, argv)
+		return
+	}
+	if incomplete(i) {
+		bad("Exec value %q cannot be split into arguments (%s) before a program is named (argv so far %q)", v, p.Fatal, argv)
+		return
+	}
+	prog := p.Words[i]
+	if !e.wrappers[prog.Text] {
+		bad("Exec value %q starts the program %q (argv %q), not the wrapper of one of the snap's own apps", v, prog.Text, argv)
+		return
+	}
+	generated(prog, "program")
+	if p.Fatal != "" {
+		facts = append(facts, "exec-unparsable-quotes")
+	}
+	if len(problems) == 0 {
+		facts = append(facts, "exec-launches-own-wrapper")
+		if len(p.Words) > i+1 {
+			facts = append(facts, "exec-with-args")
+		}
+		if p.Words[1].Quoted {
+			facts = append(facts, "exec-hint-quoted")
+		}
+	}
+	return
+}
+
 type verifC27Env struct {
 	info        *snap.Info
+	base        string
+	ref         *verifC27Env // same snap, plain file name (nil for the plain name itself)
 	desktopFile string
 	mountDir    string
 	wrappers    map[string]bool
 	validCmds   map[string]string // command as written in the source desktop file -> wrapper path
 }
 
-func verifC27NewEnv(key, base string) *verifC27Env {
-	info := verifC27Snap(key)
-	e := &verifC27Env{info: info, mountDir: info.MountDir(), wrappers: map[string]bool{}, validCmds: map[string]string{}}
+func verifC27NewEnv(key, base string) *verifC27Env { return verifC27NewEnvRev(key, base, 12) }
+
+func verifC27NewEnvRev(key, base string, rev int) *verifC27Env {
+	info := verifC27SnapRev(key, rev)
+	e := &verifC27Env{info: info, base: base, mountDir: info.MountDir(), wrappers: map[string]bool{}, validCmds: map[string]string{}}
 	e.desktopFile = filepath.Join(dirs.SnapDesktopFilesDir, fmt.Sprintf("%s_%s", info.DesktopPrefix(), base))
+	if base != verifC27Names[0].Base {
+		e.ref = verifC27NewEnvRev(key, verifC27Names[0].Base, rev)
+	}
 	for _, n := range verifC27AppNames {
 		w := filepath.Join(dirs.SnapBinariesDir, snap.JoinSnapApp(info.InstanceName(), n))
 		e.wrappers[w] = true
@@ -260,22 +581,35 @@ func (e *verifC27Env) explains(in, out string) bool {
 		return true
 	}
 	if strings.HasPrefix(in, "Exec=") && strings.HasPrefix(out, "Exec=") {
-		pre := "Exec=env BAMF_DESKTOP_FILE_HINT=" + e.desktopFile + " "
-		if !strings.HasPrefix(out, pre) {
+		// "env <the hint assignment, as one well-formed argument> <wrapper>" + the input's arguments
+		v := out[len("Exec="):]
+		p := verifC27ParseExec(v)
+		if len(p.Words) < 3 {
 			return false
 		}
-		rest := out[len(pre):]
+		w1, w2 := p.Words[1], p.Words[2]
+		hint := "BAMF_DESKTOP_FILE_HINT=" + e.desktopFile
+		if v[:w1.RawStart] != "env " || v[w1.RawEnd:w2.RawStart] != " " || w1.Text != hint || len(w1.Flaws) > 0 || len(w1.Codes) > 0 {
+			return false
+		}
+		if verifC27PlainArg(hint) && v[w1.RawStart:w1.RawEnd] != hint {
+			return false // a name that needs no quoting is written as it is (the literal prefix of the first version of this check)
+		}
+		wrapper, rest := v[w2.RawStart:w2.RawEnd], v[w2.RawEnd:]
 		cmd := in[len("Exec="):]
 		for vc, w := range e.validCmds {
-			if cmd == vc && rest == w {
+			if wrapper != w {
+				continue
+			}
+			if cmd == vc && rest == "" {
 				return true
 			}
-			if strings.HasPrefix(cmd, vc+" ") && rest == w+e.subst(cmd[len(vc):]) {
+			if strings.HasPrefix(cmd, vc+" ") && rest == e.subst(cmd[len(vc):]) {
 				return true
 			}
 		}
 		// fallback documented in the code: the app named like the desktop file, without arguments
-		return e.wrappers[rest]
+		return e.wrappers[wrapper] && rest == ""
 	}
 	if p := "Icon=snap.foo."; strings.HasPrefix(in, p) {
 		return out == "Icon=snap."+e.info.InstanceName()+"."+e.subst(in[len(p):])
@@ -332,31 +666,37 @@ func (e *verifC27Env) check(lines []string, output string) (problems []string, f
 		switch class {
 		case "key:Exec":
 			v := ol[len("Exec="):]
-			pre := "env BAMF_DESKTOP_FILE_HINT=" + e.desktopFile + " "
-			okLiteral := false
-			if strings.HasPrefix(v, pre) {
-				rest := v[len(pre):]
-				for w := range e.wrappers {
-					if rest == w || strings.HasPrefix(rest, w+" ") {
-						okLiteral = true
+			// (1) the reference reader of the Exec syntax
+			probs, fs := e.judgeExec(v)
+			problems = append(problems, probs...)
+			for _, f := range fs {
+				facts[f]++
+			}
+			// (2) a name that needs no quoting appears literally (first version of this check)
+			if hint := "BAMF_DESKTOP_FILE_HINT=" + e.desktopFile; verifC27PlainArg(hint) {
+				pre := "env " + hint + " "
+				okLiteral := false
+				if strings.HasPrefix(v, pre) {
+					rest := v[len(pre):]
+					for w := range e.wrappers {
+						if rest == w || strings.HasPrefix(rest, w+" ") {
+							okLiteral = true
+						}
 					}
 				}
+				if !okLiteral {
+					problems = append(problems, fmt.Sprintf("Exec value %q is not 'env BAMF_DESKTOP_FILE_HINT=<installed file> <own wrapper>[ args]'", v))
+				}
 			}
-			if !okLiteral {
-				problems = append(problems, fmt.Sprintf("Exec value %q is not 'env BAMF_DESKTOP_FILE_HINT=<installed file> <own wrapper>[ args]'", v))
-			}
-			argv, launchable := verifC27Argv(v)
+			// (3) second opinion: a shell-like splitter (g_shell_parse_argv subset: also single quotes and
+			// backslash outside quotes) on the value after the string-type escapes have been undone
+			argv, launchable := verifC27Argv(verifC27Unescaped(v))
 			if launchable {
 				if len(argv) < 3 || argv[0] != "env" || !strings.HasPrefix(argv[1], "BAMF_DESKTOP_FILE_HINT=") || !e.wrappers[argv[2]] {
-					problems = append(problems, fmt.Sprintf("Exec value %q launches %q, not a wrapper of the snap's own apps", v, argv))
-				} else {
-					facts["exec-launches-own-wrapper"]++
-					if len(argv) > 3 {
-						facts["exec-with-args"]++
-					}
+					problems = append(problems, fmt.Sprintf("Exec value %q launches %q for a shell-like splitter, not a wrapper of the snap's own apps", v, argv))
 				}
-			} else {
-				facts["exec-unparsable-quotes"]++
+			} else if len(probs) == 0 && facts["exec-unparsable-quotes"] == 0 {
+				facts["exec-unparsable-for-shell-like-splitter"]++
 			}
 		case "key:Icon":
 			v := ol[len("Icon="):]
@@ -422,6 +762,25 @@ func (e *verifC27Env) classOf(c verifC27Case, probs []string) string {
 	return verifC27IconClass
 }
 
+// nameClassOf attributes a failing (file content, file name) to the class of its file name iff the very
+// same content under the plain name "app.desktop" has no problem at all (delta attribution): then the
+// name is what broke it. One canonical key per name of the alphabet.
+func (e *verifC27Env) nameClassOf(c verifC27Case, probs []string) string {
+	tag := verifC27NameTag(c.DesktopBase)
+	if e.ref == nil || tag == "other" || strings.HasPrefix(tag, "plain") {
+		return ""
+	}
+	raw := ""
+	if len(c.Lines) > 0 {
+		raw = strings.Join(c.Lines, "\n") + "\n"
+	}
+	out := string(sanitizeDesktopFile(e.ref.info, e.ref.desktopFile, []byte(raw)))
+	if rest, _ := e.ref.check(c.Lines, out); len(rest) > 0 {
+		return ""
+	}
+	return verifC27NameClassPrefix + tag
+}
+
 type verifC27ClassRep struct {
 	c     verifC27Case
 	msg   string
@@ -429,18 +788,49 @@ type verifC27ClassRep struct {
 }
 
 func verifC27Size(c verifC27Case) int {
-	n := len(c.Key)*1000 + len(c.Lines)*100000
+	n := len(c.Key)*1000 + len(c.Lines)*100000 + len(c.Via)*10000
 	for _, l := range c.Lines {
 		n += len(l)
 	}
 	return n
 }
 
+// verifC27Derive creates meta/gui/<base> for every base under the snap's mount dir (below the current
+// dirs root) with the given content and returns what the real deriveDesktopFilesContent makes of them:
+// installed base name -> content.
+func verifC27Derive(info *snap.Info, bases []string, raw []byte) (map[string]string, error) {
+	gui := filepath.Join(info.MountDir(), "meta", "gui")
+	if err := os.MkdirAll(gui, 0755); err != nil {
+		return nil, err
+	}
+	for _, b := range bases {
+		if err := os.WriteFile(filepath.Join(gui, b), raw, 0644); err != nil {
+			return nil, err
+		}
+	}
+	content, err := deriveDesktopFilesContent(info)
+	if err != nil {
+		return nil, fmt.Errorf("deriveDesktopFilesContent: %v", err)
+	}
+	res := map[string]string{}
+	for name, fs := range content {
+		m, ok := fs.(*osutil.MemoryFileState)
+		if !ok {
+			return nil, fmt.Errorf("deriveDesktopFilesContent: %q is a %T", name, fs)
+		}
+		res[name] = string(m.Content)
+	}
+	return res, nil
+}
+
 // ---- the line alphabets ----
 
-func verifC27ExecLines() []string {
-	cmds := []string{"foo.app", "foo.ap", "foo", "foo.app-2", "foo.apple", "foo.app-evil", "foo-evil", "foo.", "foo.bar", "bar.app", "foo_key.app", "foo+key.app", "FOO.APP", "/bin/sh", "env", "sh -c foo.app",
-		"${SNAP}/bin/app", "/snap/bin/foo.app", "snap run foo.app", "env X=Y foo.app", "", " foo.app", "=foo.app", "\"foo.app\"", "foo.app\\"}
+var verifC27ExecCmds = []string{"foo.app", "foo.ap", "foo", "foo.app-2", "foo.apple", "foo.app-evil", "foo-evil", "foo.", "foo.bar", "bar.app", "foo_key.app", "foo+key.app", "FOO.APP", "/bin/sh", "env", "sh -c foo.app",
+	"${SNAP}/bin/app", "/snap/bin/foo.app", "snap run foo.app", "env X=Y foo.app", "", " foo.app", "=foo.app", "\"foo.app\"", "foo.app\\"}
+
+func verifC27ExecLines() []string { return verifC27ExecLinesFor(verifC27ExecCmds) }
+
+func verifC27ExecLinesFor(cmds []string) []string {
 	tails := []string{"", " ", " %U", " --opt=${SNAP}/x", " ; rm -rf /", "\tevil", " \"quoted arg", " a\\nb", "\r", " x\rExec=evil", "\x00evil", " \x1b[0m", "=x"}
 	var res []string
 	for _, c := range cmds {
@@ -484,27 +874,69 @@ func verifC27OtherLines() []string {
 	}
 }
 
+func verifC27Raw(lines []string) []byte { return []byte(strings.Join(lines, "\n") + "\n") }
+
+type verifC27Item struct {
+	lines []string
+	names int // 0: the two plain names; 1: every name; 2: every name but the two plain ones
+}
+
 func TestC27(t *testing.T) {
 	r := eng.Start("C27", "exploration", 90*time.Second, 14*time.Minute)
-	r.Assume("the oracle reads the output the way a launcher does: key = text before the first '=', Exec value split with the Desktop Entry quoting rules (g_shell_parse_argv subset)",
+	r.Assume("the oracle reads the output the way a launcher does: key = text before the first '=', Exec value read by a reference reader of the Desktop Entry Specification's Exec syntax written for this check (string-type escapes, then splitting at blanks with double-quote quoting and reserved characters, then %% and field codes), and a second time by a shell-like splitter (g_shell_parse_argv subset)",
 		"the allow list in the oracle is a hand-written transcription of the list in the statement's mechanism (wrappers/desktop.go), matched without regular expressions",
 		"lines are what bufio.Scanner yields (split at \\n, one trailing \\r removed); files longer than 4 lines are not generated",
-		"the name of the installed desktop file is <prefix>_<source base name>; source base names are restricted to [A-Za-z0-9.-] (see design_deviations)")
+		"the name of the installed desktop file is <prefix>_<source base name>; source base names come from a 16-name alphabet (no '/' or NUL, which a file name cannot contain)",
+		"env starts the first argument that is not NAME=value and does not start with '-'")
+
+	allBases := make([]string, len(verifC27Names))
+	for i, n := range verifC27Names {
+		allBases[i] = n.Base
+	}
 
 	if rc := r.ReplayCase(); rc != nil {
 		var c verifC27Case
 		if err := json.Unmarshal(rc, &c); err != nil {
 			eng.HarnessError("replay: %v", err)
 		}
-		e := verifC27NewEnv(c.Key, c.DesktopBase)
-		out := string(sanitizeDesktopFile(e.info, e.desktopFile, []byte(strings.Join(c.Lines, "\n")+"\n")))
+		var e *verifC27Env
+		var out string
+		if c.Via == "derive" {
+			dirs.SetRootDir(t.TempDir())
+			e = verifC27NewEnvRev(c.Key, c.DesktopBase, 100)
+			got, err := verifC27Derive(e.info, []string{c.DesktopBase}, verifC27Raw(c.Lines))
+			if err != nil {
+				eng.HarnessError("replay: %v", err)
+			}
+			var ok bool
+			if out, ok = got[filepath.Base(e.desktopFile)]; !ok || len(got) != 1 {
+				eng.HarnessError("replay: deriveDesktopFilesContent returned %q, expected the one file %q", got, filepath.Base(e.desktopFile))
+			}
+		} else {
+			e = verifC27NewEnv(c.Key, c.DesktopBase)
+			out = string(sanitizeDesktopFile(e.info, e.desktopFile, verifC27Raw(c.Lines)))
+		}
 		fmt.Printf("replay instance=%q installed file=%q\n  input lines: %q\n  output: %q\n", e.info.InstanceName(), e.desktopFile, c.Lines, out)
+		for _, ol := range strings.Split(strings.TrimSuffix(out, "\n"), "\n") {
+			if strings.HasPrefix(ol, "Exec=") {
+				p := verifC27ParseExec(ol[len("Exec="):])
+				fmt.Printf("  %q\n    argv (Desktop Entry Specification): %q", ol, verifC27Texts(p.Words))
+				if p.Fatal != "" {
+					fmt.Printf(" [%s]", p.Fatal)
+				}
+				argv, ok := verifC27Argv(verifC27Unescaped(ol[len("Exec="):]))
+				fmt.Printf("\n    argv (shell-like splitter): %q launchable=%v\n", argv, ok)
+			}
+		}
 		probs, _ := e.check(c.Lines, out)
 		for _, p := range probs {
 			fmt.Printf("  PROBLEM: %s\n", p)
 		}
 		if len(probs) > 0 {
 			k := e.classOf(c, probs)
+			if k == "" {
+				k = e.nameClassOf(c, probs)
+			}
 			if k == "" {
 				k = c.key()
 			}
@@ -537,45 +969,142 @@ func TestC27(t *testing.T) {
 	if r.Thorough() {
 		small = append(small, "Exec=foo.app\tevil", "Exec=foo_key.app", "Icon=${SNAP}x", "Icon=x", "Name=x", " [Desktop Entry]", "Exec=foo.app \"q", "Icon=${SNAP}/a/../x")
 	}
+	// alphabets for the multi-line files that are run under every file name: the Exec lines of a few
+	// commands (thorough: of all) with every argument tail, and a few lines of the other kinds
+	nameLines := []string{"[Desktop Entry]", "[Desktop Action a]", "Name=x", "# c", "", "X-Foo-Exec=evil", "Icon=${SNAP}/x.png", "Exec=/bin/sh"}
+	if r.Thorough() {
+		nameLines = append(nameLines, execLines...)
+	} else {
+		nameLines = append(nameLines, verifC27ExecLinesFor([]string{"foo.app", "foo", "foo.app-evil", "foo_key.app"})...)
+	}
+	tiny := []string{"[Desktop Entry]", "Exec=foo.app %U", "Exec=foo \"q", "Exec=/bin/sh", "Icon=${SNAP}/x.png", "# c", "Exec=foo.ap --opt=${SNAP}/x", "X-Foo-Exec=evil"}
+	if r.Thorough() {
+		tiny = append(tiny, "Exec=foo_key.app", "Exec=foo.app\tevil", "", "Exec=foo.app a\\nb")
+	}
 
 	keys := []string{"", "key"}
-	bases := []string{"app.desktop", "other-1.desktop"}
 
-	var cases [][]string
+	var cases []verifC27Item
 	for _, l := range full {
-		cases = append(cases, []string{l})
+		cases = append(cases, verifC27Item{[]string{l}, 1})
 	}
 	for _, a := range medium {
 		for _, b := range medium {
-			cases = append(cases, []string{a, b})
+			cases = append(cases, verifC27Item{[]string{a, b}, 0})
 		}
 	}
 	for _, a := range small {
 		for _, b := range small {
 			for _, c := range small {
-				cases = append(cases, []string{a, b, c})
+				cases = append(cases, verifC27Item{[]string{a, b, c}, 0})
 				for _, d := range small {
-					cases = append(cases, []string{a, b, c, d})
+					cases = append(cases, verifC27Item{[]string{a, b, c, d}, 0})
 				}
 			}
 		}
 	}
+	legacyFiles := len(cases)
+	for _, a := range nameLines {
+		for _, b := range nameLines {
+			cases = append(cases, verifC27Item{[]string{a, b}, 2})
+		}
+	}
+	for _, a := range tiny {
+		for _, b := range tiny {
+			for _, c := range tiny {
+				cases = append(cases, verifC27Item{[]string{a, b, c}, 2})
+			}
+		}
+	}
+	// files that go through meta/gui and deriveDesktopFilesContent, each under every name at once
+	var derived [][]string
+	for _, l := range otherLines {
+		derived = append(derived, []string{l})
+	}
+	for _, l := range execLines {
+		derived = append(derived, []string{l})
+	}
+	for _, a := range tiny {
+		for _, b := range tiny {
+			derived = append(derived, []string{a, b})
+			for _, c := range tiny {
+				derived = append(derived, []string{a, b, c})
+			}
+		}
+	}
 	r.Info("bounds", map[string]interface{}{"line_alphabet_full": len(full), "exec_lines": len(execLines), "icon_lines": len(iconLines), "icon_max_tokens": iconTokens, "other_lines": len(otherLines),
-		"two_line_alphabet": len(medium), "three_four_line_alphabet": len(small), "files": len(cases), "snap_variants": keys, "desktop_file_bases": bases, "apps": verifC27AppNames})
+		"two_line_alphabet": len(medium), "three_four_line_alphabet": len(small), "two_line_alphabet_every_name": len(nameLines), "three_line_alphabet_every_name": len(tiny),
+		"files": len(cases), "files_under_plain_names_only": legacyFiles - len(full), "files_through_meta_gui": len(derived), "snap_variants": keys, "desktop_file_names": verifC27Names, "apps": verifC27AppNames})
 
-	var evals, nontrivial, suppressed int64
+	var evals, nontrivial, suppressed, unsafeNameExec int64
 	var classMu sync.Mutex
 	classes := map[string]*verifC27ClassRep{}
 	factTotals := map[string]*int64{}
-	for _, f := range []string{"key:Exec", "key:Icon", "tag", "header-entry", "header-action", "header-shortcut", "blank", "comment", "exec-launches-own-wrapper", "exec-with-args", "exec-unparsable-quotes", "icon-path-inside", "icon-themed-name", "dropped-lines", "kept-lines"} {
+	for _, f := range []string{"key:Exec", "key:Icon", "tag", "header-entry", "header-action", "header-shortcut", "blank", "comment", "exec-launches-own-wrapper", "exec-with-args", "exec-unparsable-quotes", "exec-hint-quoted",
+		"exec-unparsable-for-shell-like-splitter", "icon-path-inside", "icon-themed-name", "dropped-lines", "kept-lines"} {
 		factTotals[f] = new(int64)
 	}
+	// record: classify and report one failing evaluation
+	record := func(e *verifC27Env, c verifC27Case, probs []string) {
+		ck := e.classOf(c, probs)
+		if ck == "" {
+			ck = e.nameClassOf(c, probs)
+		}
+		if ck != "" {
+			classMu.Lock()
+			rep := classes[ck]
+			if rep == nil {
+				rep = &verifC27ClassRep{c: c, msg: strings.Join(probs, "; ")}
+				classes[ck] = rep
+			} else if verifC27Size(c) < verifC27Size(rep.c) || (verifC27Size(c) == verifC27Size(rep.c) && c.key() < rep.c.key()) {
+				rep.c, rep.msg = c, strings.Join(probs, "; ")
+			}
+			rep.count++
+			classMu.Unlock()
+		} else if r.NumViolations() >= 60 {
+			atomic.AddInt64(&suppressed, 1)
+		} else {
+			r.Violation(c.key(), strings.Join(probs, "; "), c)
+		}
+	}
+	// tally: counters of one evaluation; returns whether it was non-trivial
+	tally := func(local map[string]int64, e *verifC27Env, nlines int, facts map[string]int) bool {
+		interesting := false
+		kept := 0
+		for f, n := range facts {
+			local[f] += int64(n)
+			if f != "tag" && (strings.HasPrefix(f, "key:") || strings.HasPrefix(f, "header-") || f == "blank" || f == "comment") {
+				kept += n
+			}
+			if f == "key:Exec" || f == "key:Icon" || f == "tag" {
+				interesting = true
+			}
+		}
+		if facts["key:Exec"] > 0 && !verifC27PlainArg(e.desktopFile) {
+			local["unsafe-name-exec"]++
+		}
+		local["kept-lines"] += int64(kept)
+		local["dropped-lines"] += int64(nlines - kept)
+		return interesting || kept < nlines
+	}
+	flush := func(local map[string]int64) {
+		for f, n := range local {
+			if f == "unsafe-name-exec" {
+				atomic.AddInt64(&unsafeNameExec, n)
+			} else if p := factTotals[f]; p != nil {
+				atomic.AddInt64(p, n)
+			}
+		}
+	}
+
+	// ---- part 1: sanitizeDesktopFile called directly, dirs root "/" ----
 	envs := map[string]*verifC27Env{}
 	for _, k := range keys {
-		for _, b := range bases {
+		for _, b := range allBases {
 			envs[k+"|"+b] = verifC27NewEnv(k, b)
 		}
 	}
+	nameSets := [][]string{allBases[:2], allBases, allBases[2:]}
 	chunk := 2000
 	nchunks := (len(cases) + chunk - 1) / chunk
 	eng.ParallelFor(nchunks, func(ci int) {
@@ -593,48 +1122,20 @@ func TestC27(t *testing.T) {
 		}
 		local := map[string]int64{}
 		var ev, nt int64
-		for _, lines := range cases[lo:hi] {
-			raw := []byte(strings.Join(lines, "\n") + "\n")
+		for _, it := range cases[lo:hi] {
+			lines := it.lines
+			raw := verifC27Raw(lines)
 			for _, k := range keys {
-				for _, b := range bases {
+				for _, b := range nameSets[it.names] {
 					e := envs[k+"|"+b]
 					// a fresh Info per call is not needed: sanitizeDesktopFile only reads it
 					out := string(sanitizeDesktopFile(e.info, e.desktopFile, raw))
 					ev++
 					probs, facts := e.check(lines, out)
 					if len(probs) > 0 {
-						c := verifC27Case{Key: k, DesktopBase: b, Lines: lines}
-						if ck := e.classOf(c, probs); ck != "" {
-							classMu.Lock()
-							rep := classes[ck]
-							if rep == nil {
-								rep = &verifC27ClassRep{c: c, msg: strings.Join(probs, "; ")}
-								classes[ck] = rep
-							} else if verifC27Size(c) < verifC27Size(rep.c) || (verifC27Size(c) == verifC27Size(rep.c) && c.key() < rep.c.key()) {
-								rep.c, rep.msg = c, strings.Join(probs, "; ")
-							}
-							rep.count++
-							classMu.Unlock()
-						} else if r.NumViolations() >= 60 {
-							atomic.AddInt64(&suppressed, 1)
-						} else {
-							r.Violation(c.key(), strings.Join(probs, "; "), c)
-						}
+						record(e, verifC27Case{Key: k, DesktopBase: b, Lines: lines}, probs)
 					}
-					interesting := false
-					kept := 0
-					for f, n := range facts {
-						local[f] += int64(n)
-						if f != "tag" {
-							kept += n
-						}
-						if f == "key:Exec" || f == "key:Icon" || f == "tag" {
-							interesting = true
-						}
-					}
-					local["kept-lines"] += int64(kept)
-					local["dropped-lines"] += int64(len(lines) - kept)
-					if interesting || kept < len(lines) {
+					if tally(local, e, len(lines), facts) {
 						nt++
 					}
 				}
@@ -642,21 +1143,85 @@ func TestC27(t *testing.T) {
 		}
 		atomic.AddInt64(&evals, ev)
 		atomic.AddInt64(&nontrivial, nt)
-		for f, n := range local {
-			if p := factTotals[f]; p != nil {
-				atomic.AddInt64(p, n)
+		flush(local)
+	})
+
+	// ---- part 2: the same through files in <mount dir>/meta/gui and the real deriveDesktopFilesContent,
+	// under a temporary dirs root; every worker has a snap revision (= mount dir) of its own ----
+	var derivedFiles, derivedCalls int64
+	dirs.SetRootDir(t.TempDir())
+	const workers = 16
+	eng.ParallelFor(workers, func(wi int) {
+		local := map[string]int64{}
+		var ev, nt, calls int64
+		for _, k := range keys {
+			wenvs := make([]*verifC27Env, len(allBases))
+			for i, b := range allBases {
+				wenvs[i] = verifC27NewEnvRev(k, b, 100+wi)
+			}
+			info := wenvs[0].info
+			for ci := wi; ci < len(derived); ci += workers {
+				if r.TimeUp() {
+					r.Cap("time", "stopped early (meta/gui part)")
+					return
+				}
+				lines := derived[ci]
+				raw := verifC27Raw(lines)
+				got, err := verifC27Derive(info, allBases, raw)
+				if err != nil {
+					eng.HarnessError("meta/gui part: %v", err)
+				}
+				calls++
+				expected := map[string]bool{}
+				for _, e := range wenvs {
+					expected[filepath.Base(e.desktopFile)] = true
+				}
+				for name := range got {
+					if !expected[name] {
+						r.Violation(fmt.Sprintf("derive:unexpected-installed-name:%q", name), fmt.Sprintf("deriveDesktopFilesContent returned a file %q for meta/gui files %q of %s", name, allBases, info.InstanceName()), verifC27Case{Key: k, Lines: lines, Via: "derive"})
+					}
+				}
+				for _, e := range wenvs {
+					c := verifC27Case{Key: k, DesktopBase: e.base, Lines: lines, Via: "derive"}
+					out, ok := got[filepath.Base(e.desktopFile)]
+					if !ok {
+						r.Violation(fmt.Sprintf("derive:missing-installed-name:%s", verifC27NameTag(e.base)), fmt.Sprintf("deriveDesktopFilesContent returned no file %q for meta/gui/%q", filepath.Base(e.desktopFile), e.base), c)
+						continue
+					}
+					ev++
+					if direct := string(sanitizeDesktopFile(e.info, e.desktopFile, raw)); direct != out {
+						r.Violation(fmt.Sprintf("derive:differs-from-sanitize:%s", verifC27NameTag(e.base)), fmt.Sprintf("deriveDesktopFilesContent gives %q, sanitizeDesktopFile(%q) gives %q", out, e.desktopFile, direct), c)
+					}
+					probs, facts := e.check(lines, out)
+					if len(probs) > 0 {
+						record(e, c, probs)
+					}
+					if tally(local, e, len(lines), facts) {
+						nt++
+					}
+				}
 			}
 		}
+		atomic.AddInt64(&evals, ev)
+		atomic.AddInt64(&derivedFiles, ev)
+		atomic.AddInt64(&derivedCalls, calls)
+		atomic.AddInt64(&nontrivial, nt)
+		flush(local)
 	})
+	dirs.SetRootDir("/")
+
 	for ck, rep := range classes {
 		r.Add("class_"+strings.NewReplacer(":", "_", "-", "_").Replace(ck)+"_instances", rep.count)
-		if os.Getenv("VERIF_C27_SKIP_ICON_CLASS") != "" {
+		if ck == verifC27IconClass && os.Getenv("VERIF_C27_SKIP_ICON_CLASS") != "" {
 			continue // only for validating mutants while the finding is not yet listed in known-findings.txt
 		}
 		r.Violation(ck, fmt.Sprintf("%d inputs of this class; smallest: %s", rep.count, rep.msg), rep.c)
 	}
 	r.Add("evaluations", evals)
 	r.Add("distinct_nontrivial", nontrivial)
+	r.Add("evaluations_through_meta_gui", derivedFiles)
+	r.Add("derive_desktop_files_content_calls", derivedCalls)
+	r.Add("exec_lines_under_names_that_need_quoting", unsafeNameExec)
 	for f, p := range factTotals {
 		r.Add("out_"+strings.NewReplacer(":", "_", "-", "_").Replace(f), *p)
 		if *p > 0 {
@@ -667,7 +1232,8 @@ func TestC27(t *testing.T) {
 		r.Add("violations_suppressed_after_60", suppressed)
 	}
 	r.Sample(verifC27Case{Key: "key", DesktopBase: "app.desktop", Lines: []string{"[Desktop Entry]", "Exec=foo.app %U", "Icon=${SNAP}/x.png", "X-Foo-Exec=evil"}})
-	r.Sample(verifC27Case{Key: "", DesktopBase: "other-1.desktop", Lines: cases[len(cases)/2]})
-	r.Sample(verifC27Case{Key: "key", DesktopBase: "app.desktop", Lines: cases[len(full)+len(medium)*3+5]})
-	r.Finish("every 1-line file over the full line alphabet, every 2-line file over the medium alphabet, every 3- and 4-line file over the small alphabet, each for 2 snaps (with/without instance key) x 2 desktop file names; distinct_nontrivial = (file, snap, name) evaluations in which a line was dropped or an Exec/Icon/[Desktop Entry] line reached the output")
+	r.Sample(verifC27Case{Key: "", DesktopBase: "other-1.desktop", Lines: cases[legacyFiles/2].lines})
+	r.Sample(verifC27Case{Key: "key", DesktopBase: "app.desktop", Lines: cases[len(full)+len(medium)*3+5].lines})
+	r.Sample(verifC27Case{Key: "key", DesktopBase: verifC27Names[2].Base, Lines: []string{"[Desktop Entry]", "Exec=foo.app %U"}, Via: "derive"})
+	r.Finish("every 1-line file over the full line alphabet under each of the 16 desktop file names; every 2-line file over the medium alphabet and every 3- and 4-line file over the small alphabet under the 2 plain names; every 2-line file over the Exec-centred alphabet and every 3-line file over the tiny alphabet under the 14 other names; each for 2 snaps (with/without instance key), sanitizeDesktopFile called directly; plus every 1-line header/key/Exec file and every 2- and 3-line file over the tiny alphabet written to meta/gui under all 16 names and read by deriveDesktopFilesContent; distinct_nontrivial = (file, snap, name) evaluations in which a line was dropped or an Exec/Icon/[Desktop Entry] line reached the output")
 }
